@@ -199,6 +199,29 @@ static void compare(const Problem& p, const std::string& pa, const Answers& a, c
   if (a.homogenised_H == b.homogenised_H) for (size_t i = 0; i < a.H.size(); i++) chk(p, tag, "C02:qbb", a.H[i], b.H[i], 1);
 }
 
+static void query_adj(const Problem& p, GNU_gama::Adj& adj, Answers& a) {
+  const auto& x = adj.x();
+  a.x.resize(p.n); for (int i = 1; i <= p.n; i++) a.x[i - 1] = x(i);
+  const auto& r = adj.r();
+  a.r.resize(p.m); for (int i = 1; i <= p.m; i++) a.r[i - 1] = r(i);
+  a.sumsq = adj.rtr(); a.defect = adj.defect();
+  a.Q.resize(p.n * p.n); a.Q0 = a.Q;
+  for (int i = 1; i <= p.n; i++) for (int j = 1; j <= p.n; j++) a.Q[(i - 1) * p.n + j - 1] = adj.q_xx(i, j);
+  a.H.resize(p.m * p.m);
+  for (int i = 1; i <= p.m; i++) for (int j = 1; j <= p.m; j++) a.H[(i - 1) * p.m + j - 1] = adj.q_bb(i, j);
+}
+// C04 on the general class Adj (gama-g3): answers of an object with a history equal those of a fresh object
+static void compare_hist(const Problem& p, const std::string& tag, const Answers& h, const Answers& fresh) {
+  chk(p, tag, "C04:adjhist:defect", h.defect, fresh.defect, 1);
+  double xs = 1; for (double t : fresh.x) xs = std::max(xs, std::fabs(t));
+  for (size_t i = 0; i < fresh.x.size(); i++) chk(p, tag, "C04:adjhist:x", h.x[i], fresh.x[i], xs);
+  chk(p, tag, "C04:adjhist:sumsq", h.sumsq, fresh.sumsq, fresh.sumsq);
+  for (size_t i = 0; i < fresh.r.size(); i++) chk(p, tag, "C04:adjhist:r", h.r[i], fresh.r[i], xs);
+  double qs = 1; for (double t : fresh.Q) qs = std::max(qs, std::fabs(t));
+  for (size_t i = 0; i < fresh.Q.size(); i++) chk(p, tag, "C04:adjhist:qxx", h.Q[i], fresh.Q[i], qs);
+  for (size_t i = 0; i < fresh.H.size(); i++) chk(p, tag, "C04:adjhist:qbb", h.H[i], fresh.H[i], 1);
+}
+
 int main(int argc, char** argv) {
   if (argc < 2) Tok::fail("usage: drv_lsq cases.txt [maxfail]");
   if (argc > 2) maxfail = atol(argv[2]);
@@ -248,6 +271,33 @@ int main(int argc, char** argv) {
         } catch (const Exc& e) { a.exc = e.what(); }
         catch (const GNU_gama::Exception::base& e) { a.exc = std::string("other:") + e.what(); }
         ans[std::string("adj-") + alg] = a;
+      }
+    }
+    // (3) one Adj object with a history: solve with a1, switch to a2 (or set the same input again), ask everything;
+    //     the law of SolverAPI.tla (answers = answers of a fresh object) on the facade gama-g3 uses
+    if (p.adm && getenv("VH_ADJ_HISTORIES")) {
+      for (const char* a1 : raw) for (const char* a2 : raw) {
+        const Answers& fresh = ans[std::string("adj-") + a2];
+        if (!fresh.ok || !ans[std::string("adj-") + a1].ok) continue;
+        for (int variant = 0; variant < (std::string(a1) == a2 ? 3 : 1); variant++) {
+          std::string tag = std::string("adj-") + a1 + ">" + a2 + (variant == 1 ? "|reset-input" : variant == 2 ? "|query-order" : "");
+          Answers h;
+          try {
+            GNU_gama::Adj adj;
+            adj.set_algorithm(adj_alg(a1));
+            adj.set(make_input(p, true));
+            if (variant == 2) { (void)adj.q_bb(p.m, 1); (void)adj.q_xx(1, p.n); (void)adj.rtr(); }
+            else { (void)adj.x(); (void)adj.q_bb(1, p.m); }
+            if (variant == 1) adj.set(make_input(p, true));
+            else adj.set_algorithm(adj_alg(a2));
+            query_adj(p, adj, h);
+            h.ok = true;
+          } catch (const Exc& e) { h.exc = e.what(); }
+          catch (const GNU_gama::Exception::base& e) { h.exc = std::string("other:") + e.what(); }
+          nchecks["C04:adjhist:answered"]++;
+          if (!h.ok) { fail(p, tag, "C04:adjhist:answered", 0, 1, h.exc); continue; }
+          compare_hist(p, tag, h, fresh);
+        }
       }
     }
     if (getenv("VH_DUMP"))
